@@ -152,7 +152,9 @@ date = st.fixed_dictionaries({'sec': st.one_of(st.integers(0, 2 ** 32), st.sampl
 UNNORMALIZED = ['e\u0301', 'A\u030a', '\u212b', 'a\u0323\u0302', 'o\u0302\u0323', '\ufb01', '\u2126', 'n\u0303', '\u1100\u1161', '/', 'x', 'Caf', '.app']
 text = st.one_of(st.text(st.characters(min_codepoint=0x20, max_codepoint=0x7e), max_size=12),
                  st.text(st.characters(min_codepoint=0x20, max_codepoint=0x2fff, exclude_categories=('Cs', 'Cc')), max_size=8),
-                 st.lists(st.sampled_from(UNNORMALIZED), min_size=1, max_size=5).map(''.join))
+                 st.lists(st.sampled_from(UNNORMALIZED), min_size=1, max_size=5).map(''.join),
+                 # names that read like numbers (a process may be called '2048'): text stays text
+                 st.one_of(st.integers(0, 99999).map(str), st.sampled_from(['0', '1', '007', '-1', '0x10', '\uff11\uff12', '1e3', ' 12', 'None', 'True'])))
 
 
 def _subset(keys, elems):
